@@ -1166,6 +1166,8 @@ def r_findz(ctx):
     """R-FINDZ: the zoom search answers Ok(z) only for a z that was assigned under the strict test `id < end of zoom z's block`,
     iterates zooms 1..=31, and has an error exit; R-HILBERT-CALL: both conversions call hilbert_2d with (x, y, z) / (h, z) in order,
     Variant::Hilbert, and add / subtract the same zoom base"""
+    global _CTX
+    _CTX = ctx
     obs = []
     fz = [f for f in ctx.user_fns() if "MaxZError" in f["ret"] and "Result<u8" in f["ret"]]
     if not fz:
@@ -1274,7 +1276,10 @@ def _strict_block_test(fa, p, e, tid):
             carried = [k for k in a[1] if k[0] == "v" and k[1].startswith("loop")]
             if len(pw) == 1 and len(carried) == 1 and a[0] == 0 and len(a[1]) == 2 and a[1][pw[0]] == 1 and a[1][carried[0]] == 1:
                 srcs = set(unmut(s) for s in fa.havoc_src.get(carried[0], ()))
-                if C(1) in srcs and all(s == C(1) or aff_eq(affine(s), a) for s in srcs):
+                def _one(s_):
+                    # the literal 1, or "the first id of zoom 1" spelled as Σ_{0≤i<1} 4^i
+                    return s_ == C(1) or _is_pow4_sum(s_, C(1), 0)
+                if any(_one(s) for s in srcs) and all(_one(s) or aff_eq(affine(s), a) for s in srcs):
                     return True
     return False
 
